@@ -12,7 +12,7 @@ ASSUMPTIONS = [
     "on-disk operands: covered in c11 (the VFS model) for _get_element; here both operands are in memory",
 ]
 BOUNDS = {
-    "quick": "Bloom geometries (1,.9)->1 bit .. (5,.3)->13 bits/2 hashes and (10,.05)->63/4; counting Bloom 2/1, 3/2, 6/2 cells with K = 2; count-min 1x1, 2x2, 3x2 with K = 2",
+    "quick": "Bloom geometries 1, 2, 3, 6, 7, 8, 11, 13, 16 bits and (10,.05)->63/4; counting Bloom 2/1, 3/2, 6/2 cells with K = 2; count-min 1x1, 2x2, 3x2 with K = 2",
     "thorough": "adds counting Bloom 11/3 and count-min 3x3 with K = 3",
     "outside": "larger geometries; saturated cells (C16)",
 }
@@ -104,15 +104,35 @@ def cms_join(ctx, cfg):
     ctx.check(ctx.and_(ctx.all_eq(pb, env.cells(b._bins)), ctx.eq(tb, b.elements_added)), "operands-unchanged")
 
 
-HARNESS = {"c12.bloom_union": bloom_union, "c12.cbf_union": cbf_union, "c12.cms_join": cms_join}
+def cms_join_raw(ctx, cfg):
+    """join on arbitrary (unsaturated) counters and totals - also states add/remove of never-added keys produce - is cellwise sum"""
+    env.setup(ctx, "cms")
+    from probables import CountMinSketch
+    w, d = cfg["w"], cfg["d"]
+    a, b = CountMinSketch(width=w, depth=d, hash_function=FIXED), CountMinSketch(width=w, depth=d, hash_function=FIXED)
+    for j in range(w * d):
+        a._bins[j] = ctx.int(f"a{j}", -2 ** 24, 2 ** 24)
+        b._bins[j] = ctx.int(f"b{j}", -2 ** 24, 2 ** 24)
+    ta, tb = ctx.int("ta", -2 ** 40, 2 ** 40), ctx.int("tb", -2 ** 40, 2 ** 40)
+    a._CountMinSketch__elements_added, b._CountMinSketch__elements_added = ta, tb
+    pa, pb = env.cells(a._bins), env.cells(b._bins)
+    a.join(b)
+    ctx.check(ctx.and_([ctx.eq(r, x + y) for r, x, y in zip(env.cells(a._bins), pa, pb)]), "cms-join-is-cellwise-sum")
+    ctx.check(ctx.eq(a.elements_added, ta + tb), "cms-join-total")
+    ctx.check(ctx.and_(ctx.all_eq(pb, env.cells(b._bins)), ctx.eq(tb, b.elements_added)), "operands-unchanged")
+
+
+HARNESS = {"c12.bloom_union": bloom_union, "c12.cbf_union": cbf_union, "c12.cms_join": cms_join, "c12.cms_join_raw": cms_join_raw}
 
 
 def jobs(tier):
     js = []
-    for est, fpr in [(1, .9), (1, .5), (1, .3), (2, .3), (1, .05), (3, .2), (5, .3), (10, .05)] + ([(7, .1)] if tier == "thorough" else []):
+    for est, fpr in [(1, .9), (1, .5), (1, .3), (2, .3), (1, .05), (3, .28), (3, .2), (5, .3), (5, .22), (10, .05)] + ([(7, .1)] if tier == "thorough" else []):
         js.append({"h": "c12.bloom_union", "cfg": {"est": est, "fpr": fpr}, "opts": {"cost": est}})
     for est, fpr, K in [(1, .5, 2), (1, .3, 2), (2, .3, 2)] + ([(3, .2, 2), (2, .3, 3)] if tier == "thorough" else []):
         js.append({"h": "c12.cbf_union", "cfg": {"est": est, "fpr": fpr, "K": K}, "opts": {"cost": est * 10}})
     for w, d, K in [(1, 1, 2), (2, 2, 2), (3, 2, 2)] + ([(3, 3, 3), (3, 2, 3)] if tier == "thorough" else []):
         js.append({"h": "c12.cms_join", "cfg": {"w": w, "d": d, "K": K}, "opts": {"cost": w * d * 10}})
+    for w, d in [(1, 1), (2, 2), (3, 2)]:
+        js.append({"h": "c12.cms_join_raw", "cfg": {"w": w, "d": d}, "opts": {"cost": w * d * 10}})
     return js
